@@ -42,7 +42,7 @@ func (zo *Object) GetObjectName() string {
 }
 
 func (zo *Object) IsInstanceOf(classModel *ClassModel) bool {
-	return zo.model == classModel
+	return zo.model.root() == classModel.root()
 }
 
 // GetProperty -
